@@ -10,9 +10,9 @@
 //     package-level variable (so that "no mutable global state" is checked against
 //     whatever variables the tree has today, not a hand-kept list)
 //   - <repo>/zz_verif_accessor.go         root package: exported Verif* entry points
-//   - in -mode yield-*: replacement files with simrt.Yield(site) inserted at
+//   - in -mode yield-*: replacement files with simrt__.Yield(site) inserted at
 //     function entries and (hand-written files, or all files in yield-full) before
-//     every statement; `go` statements are routed through simrt.Go.
+//     every statement; `go` statements are routed through simrt__.Go.
 //
 // Exit status: 0 ok, 2 anything else (never 1: this tool decides no property).
 package main
@@ -221,7 +221,7 @@ func (in *instr) tear(f *ast.File, src []byte, as *ast.AssignStmt, fn string) bo
 	}
 	text := func(n ast.Node) string { return string(src[in.tf.Offset(n.Pos()):in.tf.Offset(n.End())]) }
 	lt, rt := text(L), "("+text(R)+")"
-	y := func() string { return fmt.Sprintf("simrt.Yield(%d); ", in.newSite(as.Pos(), "torn", fn)) }
+	y := func() string { return fmt.Sprintf("simrt__.Yield(%d); ", in.newSite(as.Pos(), "torn", fn)) }
 	var b strings.Builder
 	switch {
 	case as.Tok == token.DEFINE:
@@ -291,7 +291,7 @@ func (in *instr) hoistIfInit(f *ast.File, src []byte, is *ast.IfStmt, fn string)
 			}
 		}
 	}
-	b.WriteString(fmt.Sprintf("; simrt.Yield(%d); ", in.newSite(is.Init.Pos(), kind, fn)))
+	b.WriteString(fmt.Sprintf("; simrt__.Yield(%d); ", in.newSite(is.Init.Pos(), kind, fn)))
 	for _, t := range torn {
 		b.WriteString(t)
 	}
@@ -548,10 +548,10 @@ func main() {
 		}
 		// globals registration file
 		var b bytes.Buffer
-		fmt.Fprintf(&b, "//go:build verif\n\npackage %s\n\nimport simrt %q\n\n", p.name, modPath+"/internal/simrt")
-		fmt.Fprintf(&b, "var _ = simrt.Register\n\nfunc init() {\n")
+		fmt.Fprintf(&b, "//go:build verif\n\npackage %s\n\nimport simrt__ %q\n\n", p.name, modPath+"/internal/simrt")
+		fmt.Fprintf(&b, "var _ = simrt__.Register\n\nfunc init() {\n")
 		for _, g := range p.globals {
-			fmt.Fprintf(&b, "\tsimrt.Register(%q, &%s)\n", p.imp+"."+g, g)
+			fmt.Fprintf(&b, "\tsimrt__.Register(%q, &%s)\n", p.imp+"."+g, g)
 		}
 		fmt.Fprintf(&b, "}\n")
 		write(overlay, filepath.Join(p.dir, "zz_verif_globals.go"), fmt.Sprintf("globals_%d.go", i), b.String())
@@ -569,7 +569,7 @@ func main() {
 
 	// root accessor
 	var b bytes.Buffer
-	fmt.Fprintf(&b, "//go:build verif\n\npackage %s\n\nimport simrt %q\n\n", root.name, modPath+"/internal/simrt")
+	fmt.Fprintf(&b, "//go:build verif\n\npackage %s\n\nimport simrt__ %q\n\n", root.name, modPath+"/internal/simrt")
 	b.WriteString(accessorSrc)
 	// 256-bit constants written in the source as four 64-bit limbs: a dictionary
 	// for the input generator (a comparison against a mistyped constant cannot
@@ -799,7 +799,7 @@ func (in *instr) replace(pos token.Pos, n int, text string) {
 }
 
 func (in *instr) yieldAt(pos token.Pos, kind, fn string) {
-	in.insert(pos, fmt.Sprintf("simrt.Yield(%d); ", in.newSite(pos, kind, fn)))
+	in.insert(pos, fmt.Sprintf("simrt__.Yield(%d); ", in.newSite(pos, kind, fn)))
 }
 
 // findCaptured collects the local variables of this file that some function
@@ -844,7 +844,7 @@ func (in *instr) findCaptured(f *ast.File) {
 }
 
 // registerCaptured announces, right after the statement that declares it, every
-// captured local variable to simrt.Captured. Only announcements made while the
+// captured local variable to simrt__.Captured. Only announcements made while the
 // package is being initialised are kept (a closure built then, and the state it
 // holds, lives as long as the process: it is package state that no
 // package-level variable's value shows); later calls return at once.
@@ -877,7 +877,7 @@ func (in *instr) registerCaptured(s ast.Stmt, fn string) {
 			continue
 		}
 		if obj := info.Defs[id]; obj != nil && in.captured[obj] {
-			in.insert(s.End(), fmt.Sprintf("; simrt.Captured(%q, &%s)", in.p.imp+"."+fn+"."+id.Name, id.Name))
+			in.insert(s.End(), fmt.Sprintf("; simrt__.Captured(%q, &%s)", in.p.imp+"."+fn+"."+id.Name, id.Name))
 		}
 	}
 }
@@ -912,7 +912,7 @@ func (in *instr) walk(n ast.Node, fn string) {
 		case *ast.CallExpr:
 			// sync.OnceValue(f), sync.OnceValues(f), sync.OnceFunc(f): whatever f
 			// builds lives as long as the returned function value, which cannot be
-			// walked. f announces itself when it runs (simrt.LazyInit); if that
+			// walked. f announces itself when it runs (simrt__.LazyInit); if that
 			// happens after package initialisation, state has been created lazily.
 			if sel, ok := t.Fun.(*ast.SelectorExpr); ok && len(t.Args) == 1 {
 				if id, ok := sel.X.(*ast.Ident); ok && id.Name == "sync" && (sel.Sel.Name == "OnceValue" || sel.Sel.Name == "OnceValues" || sel.Sel.Name == "OnceFunc") {
@@ -920,11 +920,11 @@ func (in *instr) walk(n ast.Node, fn string) {
 						// only a once-function CREATED during package initialisation is
 						// package state; one created inside a call dies with it. The
 						// moment of creation is captured by wrapping the literal:
-						//   func(born bool) T { return func… { LazyInit(name, born); … } }(simrt.Born())
+						//   func(born bool) T { return func… { LazyInit(name, born); … } }(simrt__.Born())
 						typ := string(in.src[in.tf.Offset(fl.Type.Pos()):in.tf.Offset(fl.Type.End())])
 						in.insert(fl.Pos(), "func(born__ bool) "+typ+" { return ")
-						in.insert(fl.Body.Lbrace+1, fmt.Sprintf("simrt.LazyInit(%q, born__); ", in.p.imp+"."+fn+" (sync."+sel.Sel.Name+")"))
-						in.insert(fl.End(), " }(simrt.Born())")
+						in.insert(fl.Body.Lbrace+1, fmt.Sprintf("simrt__.LazyInit(%q, born__); ", in.p.imp+"."+fn+" (sync."+sel.Sel.Name+")"))
+						in.insert(fl.End(), " }(simrt__.Born())")
 					}
 				}
 			}
@@ -970,11 +970,11 @@ func (in *instr) walk(n ast.Node, fn string) {
 		case *ast.GoStmt:
 			goStmts++
 			if !in.goEager(t) {
-				// no type information: go f(x) -> simrt.Go(func() { f(x) }); the
+				// no type information: go f(x) -> simrt__.Go(func() { f(x) }); the
 				// function value and the arguments are then evaluated by the new
 				// task instead of at the go statement (a difference only for code
 				// that reassigns them afterwards)
-				in.replace(t.Go, 2, "simrt.Go(func() {")
+				in.replace(t.Go, 2, "simrt__.Go(func() {")
 				in.insert(t.End(), " })")
 			}
 			in.walk(t.Call, fn)
@@ -986,7 +986,7 @@ func (in *instr) walk(n ast.Node, fn string) {
 
 // goEager rewrites `go FUN(ARGS)` into
 //
-//	func(fn__ SIG, p0__ T0, …) { simrt.Go(func() { fn__(p0__, …) }) }(FUN, ARGS)
+//	func(fn__ SIG, p0__ T0, …) { simrt__.Go(func() { fn__(p0__, …) }) }(FUN, ARGS)
 //
 // so that, exactly as the language specifies for a go statement, the function
 // value and the arguments are evaluated where the statement stands and only the
@@ -1055,7 +1055,7 @@ func (in *instr) goEager(g *ast.GoStmt) bool {
 	if !sig.Variadic() && len(g.Call.Args) != np {
 		return false // f(g()) with a multi-value g
 	}
-	wrapper := "func(" + strings.Join(decl, ", ") + ") { simrt.Go(func() { fn__(" + strings.Join(use, ", ") + ") }) }("
+	wrapper := "func(" + strings.Join(decl, ", ") + ") { simrt__.Go(func() { fn__(" + strings.Join(use, ", ") + ") }) }("
 	in.replace(g.Go, 2, wrapper)
 	// "go" is followed by white space and FUN; the call's "(" becomes ", " (or
 	// nothing when there is no argument)
@@ -1104,7 +1104,7 @@ func instrumentFile(p *pkgInfo, name string, f *ast.File, full bool) string {
 		in.stmts(fd.Body.List, fn)
 	}
 	// the import rides on the package clause line, so line numbers do not move
-	in.insert(f.Name.End(), fmt.Sprintf("; import simrt %q", modPath+"/internal/simrt"))
+	in.insert(f.Name.End(), fmt.Sprintf("; import simrt__ %q", modPath+"/internal/simrt"))
 	// apply from the end of the file backwards
 	sort.SliceStable(in.edits, func(i, j int) bool {
 		if in.edits[i].off != in.edits[j].off {
@@ -1116,7 +1116,7 @@ func instrumentFile(p *pkgInfo, name string, f *ast.File, full bool) string {
 	for _, e := range in.edits {
 		out = append(out[:e.off], append([]byte(e.text), out[e.off+e.del:]...)...)
 	}
-	out = append(out, []byte("\nvar _ = simrt.Yield\n")...)
+	out = append(out, []byte("\nvar _ = simrt__.Yield\n")...)
 	if _, err := parser.ParseFile(token.NewFileSet(), name, out, 0); err != nil {
 		os.WriteFile("/verif/.work/bad.go", out, 0o644)
 		die("instrumented %s does not parse: %v", name, err)
@@ -1211,17 +1211,17 @@ func Globals() []Global { sealed = true; return globals }
 `
 
 const accessorSrc = `// VerifGlobal describes one package-level variable.
-type VerifGlobal = simrt.Global
+type VerifGlobal = simrt__.Global
 
 // VerifGlobals lists every package-level variable of every package of the module.
-func VerifGlobals() []VerifGlobal { return simrt.Globals() }
+func VerifGlobals() []VerifGlobal { return simrt__.Globals() }
 
 // VerifLazy lists the sync.OnceValue / OnceFunc initialisers that ran after start-up.
-func VerifLazy() []string { return simrt.Lazies() }
+func VerifLazy() []string { return simrt__.Lazies() }
 
 // VerifSetYieldHook installs the scheduler callback (nil uninstalls).
-func VerifSetYieldHook(f func(uint32)) { simrt.Hook = f }
+func VerifSetYieldHook(f func(uint32)) { simrt__.Hook = f }
 
 // VerifSetSpawnHook installs the goroutine-spawn callback (nil uninstalls).
-func VerifSetSpawnHook(f func(func())) { simrt.Spawn = f }
+func VerifSetSpawnHook(f func(func())) { simrt__.Spawn = f }
 `
